@@ -44,6 +44,9 @@ def step_executions(steps, k):
     for _, t in steps:
         it = t[1] if t[0] == "stream" else t
         vs = values.values(it, k, json_safe=False)
+        if it == ("prim", "string"):
+            # strings that hold numbers (in range, out of range for the narrow integer types, fractional, with exponent, padded, with a tail)
+            vs = list(vs) + ["42", "-7", "300", "70000", "-1", "3.5", "1e3", " 12", "12abc", "99999999999", "-129", "65536"]
         per.append(vs)
         defaults.append([] if t[0] == "stream" else vs[0])
     out = [("defaults", list(defaults))]
@@ -140,6 +143,7 @@ def c05_base():
     base.defs.append(Record("Pt", [("x", P("float32")), ("y", P("float32"))]))
     base.defs.append(Record("Un5", [("keep", P("int32")), ("u", Union(P("int32"), P("float32"), P("string"), P("bool"), P("int64")))]))
     base.defs.append(Record("Nm", [("value", P("int32")), ("stream", P("int32")), ("item", P("int32"))]))
+    pr.steps += [("label", P("string")), ("labels", Stream(P("string")))]
     pr.steps += [("pt", N("Pt")), ("pts", Vec(N("Pt"))), ("ptstream", Stream(N("Pt"))), ("un5", N("Un5")), ("nm", N("Nm")), ("fv", Vec(P("int32"), 3))]
     return base
 
